@@ -243,7 +243,8 @@ local macro "hoist_restC11" : tactic => `(tactic| (
     List.length_map]
   by_cases hde : ds = []
   · subst hde
-    simp only [List.length_nil, List.map_nil, Int.natCast_zero, gt_iff_lt, Int.lt_irrefl, decide_false,
+    -- (`if len(deps) > 0:` or `if deps:`)
+    simp only [List.length_nil, List.map_nil, Int.natCast_zero, gt_iff_lt, Int.lt_irrefl, decide_false, truthy_list_nilC11,
       Bool.false_eq_true, if_false]
     refine (comp_loop_simC11 [] (embT tv) (Doc.depTags cfg lp iv) (fun ns => tagListOf (embTs tv ns)) _ ?st _).trans ?fin
     case st => intro d hd; simp at hd
@@ -255,7 +256,8 @@ local macro "hoist_restC11" : tactic => `(tactic| (
       simp [embTs_appendC11, embTs]
   · have hpos := len_posC11 ds hde
     have hne : ds.isEmpty = false := by cases ds <;> simp_all
-    simp only [hpos, if_true]
+    have htr : truthy (PVal.list (ds.map (embT tv))) = true := by cases ds <;> simp_all [truthy]
+    simp only [hpos, htr, if_true]
     refine comp_loop_kC11 ds (embT tv) (fun d => PVal.str (depListingC11 d)) _ ?stl _ _ ?kl
     case stl =>
       intro d hd s
